@@ -5,6 +5,7 @@ package weshnet
 import (
 	"bytes"
 	"fmt"
+	"google.golang.org/protobuf/proto"
 	"testing"
 	"testing/synctest"
 	"time"
@@ -164,6 +165,33 @@ func c17run(r *kernel.Run, seed uint64) {
 		return p.lastRotation[tp], true
 	}
 
+	// newcomer: a peer that registers the topic at this very moment (it opened the group, or started, in the current
+	// period and has never seen an older value) must accept the rotation value a sender puts on the wire now
+	newcomer := func(where string, sender *c17peer, tp string, payload []byte) bool {
+		var heads protocoltypes.OrbitDBMessageHeads
+		if err := proto.Unmarshal(payload, &heads); err != nil {
+			r.Violate("marshal", "marshal-failed", "%s: the sealed head exchange is not a readable message: %v", where, err)
+			return false
+		}
+		var fr *rendezvous.RotationInterval
+		if static {
+			fr = rendezvous.NewStaticRotationInterval()
+		} else {
+			fr = rendezvous.NewRotationInterval(interval)
+		}
+		fr.RegisterRotation(time.Now(), tp, seeds[tp])
+		pt, err := fr.PointForRawRotation(heads.RawRotation)
+		if err != nil {
+			r.Violate("marshal", "unmarshal-refused", "%s: a peer that registers %s now refuses the rotation value %s puts on the wire now: %v", where, tp, sender.name, err)
+			return false
+		}
+		if pt.Topic() != tp {
+			r.Violate("marshal", "wrong-address", "%s: the rotation value on the wire maps to %q", where, pt.Topic())
+			return false
+		}
+		r.Probe("wire_value_accepted_by_newcomer")
+		return true
+	}
 	nev := 2 + r.Choose(19)
 	for ev := 0; ev < nev && !r.Failed(); ev++ {
 		p := peers[r.Choose(2)]
@@ -246,7 +274,25 @@ func c17run(r *kernel.Run, seed uint64) {
 			}
 			r.Probe("values_exchanged")
 		case a == 8: // through the head-exchange marshaler
-			if !p.registered[tp] || !o.registered[tp] || p == o {
+			if !p.registered[tp] || p == o {
+				continue
+			}
+			if !o.registered[tp] {
+				// nobody to open it yet: the sender seals anyway (a head exchange is sent to whoever listens); this is
+				// what a peer that registers the topic LATER, in another period, has never seen
+				if _, ok := resolve(p, tp, fmt.Sprintf("event %d (sender)", ev)); !ok {
+					return
+				}
+				payload, err := p.mm.Marshal(&iface.MessageExchangeHeads{Address: tp})
+				if err != nil {
+					r.Violate("marshal", "marshal-failed", "event %d: Marshal on %s failed for a registered topic: %v", ev, p.name, err)
+					return
+				}
+				if !newcomer(fmt.Sprintf("event %d", ev), p, tp, payload) {
+					return
+				}
+				r.Logf("head exchange for %s sealed by %s, nobody opens it", tp, p.name)
+				r.Probe("sealed_without_receiver")
 				continue
 			}
 			r.Logf("head exchange for %s sealed by %s, opened by %s", tp, p.name, o.name)
@@ -264,6 +310,9 @@ func c17run(r *kernel.Run, seed uint64) {
 				return
 			}
 			p.resolvedIn[tp] = period(time.Now())
+			if !newcomer(fmt.Sprintf("event %d", ev), p, tp, payload) {
+				return
+			}
 			var msg iface.MessageExchangeHeads
 			if err := o.mm.Unmarshal(payload, &msg); err != nil {
 				r.Violate("marshal", "unmarshal-refused", "event %d: %s cannot open the head exchange sealed by %s in the same period: %v", ev, o.name, p.name, err)
